@@ -32,6 +32,7 @@ static void ip_family(Rng&R,std::vector<Text>&out,bool thorough){
     hosts.push_back(T("[")+h+T("]")); }
   for(auto a:oct) for(auto b:oct){ hosts.push_back(T(a)+T(".")+T(b)+T(".1.1")); hosts.push_back(T("1.1.")+T(a)+T(".")+T(b)); hosts.push_back(T("[::")+T(a)+T(".")+T(b)+T(".3.4]")); hosts.push_back(T("[::1.2.")+T(a)+T(".")+T(b)+T("]")); hosts.push_back(T("[1:2:3:4:5:6:")+T(b)+T(".2.3.")+T(a)+T("]")); }
   for(const char*f:{"[v1.a]","[vF.a:b]","[V1f.~!$&'()*+,;=:]","[v.a]","[v1.]","[v1a]","[vg.a]","[v1.a/]","[v1.%41]","[]","[:]","[::]","[:::]","[1]","[1:2:3:4:5:6:7:8]","[1:2:3:4:5:6:7:]","[1:2:3:4:5:6:7]","[1:2:3:4:5:6:7:8:]","[:1:2:3:4:5:6:7]","[1:2:3:4:5:6:7::8]","[1:2:3:4:5:6::7:8]","[::1:2:3:4:5:6:7:8]","[1:2:3:4:5:6:7:8::]","[1:2:3:4:5:6:7:8:9]","[1:2:3:4:5:6:7::]","[::1:2:3:4:5:6:7]","[1::2::3]","[12345::]","[::1.2.3]","[::1.2.3.4.5]","[1:2:3:4:5:6:1.2.3.4]","[1:2:3:4:5:6:7:1.2.3.4]","[::ffff:1.2.3.4]","[1.2.3.4]","[::1.2.3.4:5]"}) hosts.push_back(T(f));
+  for(const char*f:{"255.255.255.255","192.168.100.200","100.100.100.100","255.255.255.25","25.255.255.255","255.255.255.2555","1.2.3.4","001.2.3.4","255.255.255.256","[::255.255.255.255]","[1:2:3:4:5:6:192.168.100.200]"}) hosts.push_back(T(f));
   for(auto&h:hosts){ out.push_back(T("//")+h); if(R.below(3)==0) out.push_back(T("s://u@")+h+T(":1/p")); if(R.below(5)==0) out.push_back(T("//")+h+T(":")); }
 }
 
